@@ -234,6 +234,48 @@ def run(ctx):
                 ctx.violation('a non-scaling operation changed units / name / id', d, dict(before=want, after=got))
         if (str(x.units), x.name, x.id) != want:
             ctx.violation('a non-inplace operation changed the input\'s units / name / id', dict(units=want[0]))
+    # ---------------- E2: the same for meshes, dotprops and conversions between representations ----------------
+    import trimesh
+    for ci in range(ctx.n(8, 60)):
+        units = str(rng.choice(['8 nm', '1 um', '2 um']))
+        tm_ = trimesh.creation.icosphere(subdivisions=1, radius=float(rng.integers(20, 60)))
+        me = navis.MeshNeuron(tm_, name='keepme', id=777, units=units)
+        pts = np.cumsum(rng.normal(size=(30, 3)) * 4, axis=0)
+        dp = navis.make_dotprops(pts, k=5); dp.name, dp.id, dp.units = 'keepme', 777, units
+        f = F.gen_forest(rng, 8, 25, roots=1, lattice=False, zero_edges=False)
+        sk = F.mk_neuron(f, name='keepme', nid=777, units=units, radius=1.5)
+        vol = navis.Volume(tm_.vertices, tm_.faces, name='v')
+        ops2 = {
+            'mesh:copy': lambda: me.copy(),
+            'mesh:make_dotprops': lambda: navis.make_dotprops(me, k=5),
+            'mesh:skeletonize': lambda: navis.skeletonize(me),
+            'mesh:subset': lambda: navis.subset_neuron(me, np.arange(len(me.vertices))[:30]),
+            'mesh:in_volume': lambda: navis.in_volume(me, vol),
+            'mesh:smooth': lambda: navis.smooth_mesh(me, iterations=1, backend='trimesh'),
+            'mesh:pickle': lambda: pickle.loads(pickle.dumps(me)),
+            'dotprops:copy': lambda: dp.copy(),
+            'dotprops:make_dotprops': lambda: navis.make_dotprops(dp, k=3),
+            'dotprops:subset': lambda: navis.subset_neuron(dp, np.arange(20)),
+            'dotprops:downsample': lambda: navis.downsample_neuron(dp, 2),
+            'dotprops:to_skeleton': lambda: dp.to_skeleton(),
+            'dotprops:pickle': lambda: pickle.loads(pickle.dumps(dp)),
+            'skeleton:make_dotprops(k=0)': lambda: navis.make_dotprops(sk, k=0),
+            'skeleton:mesh': lambda: navis.mesh(sk),
+        }
+        for name, fn in ops2.items():
+            st, y = guarded(fn)
+            ctx.case(('meta2', name, ci), nontrivial=True)
+            ctx.count('meta:' + name)
+            d = dict(operation=name, units=units)
+            if st != 'ok':
+                ctx.count('rejected:' + name)
+                continue
+            got = (str(y.units), y.name, str(y.id))
+            want2 = (str(me.units), 'keepme', '777')
+            if name in ('dotprops:to_skeleton', 'skeleton:mesh', 'mesh:skeletonize'):
+                got, want2 = got[:1], want2[:1]      # conversions other than "to dotprops" are not in the property's list: units only
+            if got != want2:
+                ctx.violation('a non-scaling operation / conversion changed units / name / id', d, dict(before=want2, after=got))
 
 
 def _v3(p):
